@@ -40,6 +40,8 @@ G: dict[str, Any] = {}
 REQ = bytes.fromhex("22f190")
 REPLY = bytes.fromhex("62f190aabbcc")
 PENDING = bytes.fromhex("7f2278")
+NEVER = 1e9  # restart delay of a peer that never accepts again
+BACKOFF = 0.2  # UDSClient.retry_wait: the first retry is documented to wait this long before it reconnects
 ACK_TIME = {"tcp": 0.0, "unix": 0.0, "doip": 2.0, "hsfz": 1.0}
 URI = {
     "tcp": "tcp-lines://192.0.2.1:1234",
@@ -347,6 +349,21 @@ def judge(item: dict[str, Any], box: dict[str, Any], choices: list[int], res: Re
                 tw = ci["writes"][-1]
                 if ci["delivered"][-1][0] < tw + lim and len(ci["writes"]) <= (2 if proto == "doip" else 1):
                     owed = True
+        if (
+            not owed
+            and not any(choices)  # benign schedule: nothing was delayed by the explorer
+            and kind in ("eof", "rst")
+            and item["max_retry"] >= 1
+            and 0 <= item["delay"] < BACKOFF
+            and not item.get("pending")
+            and refused
+        ):
+            v(
+                f"request|reconnect-before-backoff|{outcome}|{kind}",
+                f"the peer accepted again {item['delay']} s after the cut, i.e. within the client's first back-off ({BACKOFF} s), but the client tried to reconnect at "
+                f"t={refused[0][0]} (cut at t={box['st'].get('cut_at')}), was refused and gave up with {o[3:]}",
+            )
+            return
         if owed:
             v(
                 f"request|no-recovery|{outcome}|{kind}|region={region}",
@@ -515,10 +532,12 @@ def items(tier: str, seed: int) -> list[Any]:
                                 ({"proto": proto, "cut": cutp, "kind": kind, "mode": "B", "timeout": 2.0, "delay": 0.0, "max_retry": mr, "pending": True}, min(bound, 1), cap)
                             )
                 for mr in (1, 3):
-                    delays = (0.0, 0.05, 0.35, 2.5, 11.0)
+                    delays = (0.0, 0.05, 0.35, 2.5, 11.0, NEVER)
                     for delay in delays:
-                        if quick and mr == 3 and delay not in (0.0, 2.5):
+                        if quick and mr == 3 and delay not in (0.0, 0.05, NEVER):
                             continue
+                        if delay == NEVER and cut not in (0, L // 2, L):
+                            continue  # the peer never comes back: a few cut points suffice (bounded-time clause)
                         out.append(
                             ({"proto": proto, "cut": cut, "kind": kind, "mode": "B", "timeout": 2.0, "delay": delay, "max_retry": mr}, min(bound, 1), cap)
                         )
